@@ -270,9 +270,11 @@ def r14_3(prog, out):
                     for e in prog.effects(cid):
                         if e.touches(reg) and e.kind in L.INSERT_KINDS and any(cb == b.id for cb, _ in e.chain) and e.bb in vac:
                             ok = True
+                    if cid == b.id and bb in vac:
+                        ok = True           # the registration is written (or spliced) into the creating body itself, under the vacant arm
                 if ok:
                     out.holds(k3, bi.loc(bb), "reached only under the vacant arm of the manager's name lookup")
-                elif any(b.id in prog.cone(cid, follow=("call", "closure", "poll")) and
+                elif any(cid != b.id and b.id in prog.cone(cid, follow=("call", "closure", "poll")) and
                          not any(e.touches(A.cell("PushRegistryState", "push_subscriptions")) and e.kind in L.INSERT_KINDS and any(cb == b.id for cb, _ in e.chain)
                                  for e in prog.effects(cid)) for cid in creators):
                     out.undecided(k3, bi.loc(bb), "the function that inserts into the manager's name map reaches this registration only through a callback it hands to a "
